@@ -630,4 +630,53 @@ func checkSkipSeekBound(c *Ctx, r *Report, fn *ssa.Function) {
 		}
 	}
 	r.Hold(key, pos, fmt.Sprintf("%d skipping Seek(s): success returns are behind the post-seek position <= source size", len(seeks)))
+	// the size that bound relies on must be a real size: -1 (unknown yet), DataOffset+DataSize of the
+	// parsed header, or the result of Seek(0, io.SeekEnd)
+	key2 := "reader-size-provenance@v2.BlockReader"
+	bad := ""
+	n := 0
+	for _, g := range []string{"NewBlockReader", "SkipNext", "Next"} {
+		var gf *ssa.Function
+		var err error
+		if g == "NewBlockReader" {
+			gf, err = c.Func(modV2, "", g)
+		} else {
+			gf, err = c.Func(modV2, "BlockReader", g)
+		}
+		if err != nil {
+			continue
+		}
+		eachInstr(gf, func(in ssa.Instruction) {
+			st, ok := in.(*ssa.Store)
+			if !ok {
+				return
+			}
+			fa, ok := st.Addr.(*ssa.FieldAddr)
+			if !ok || !fieldAddrIs(fa, modV2, "BlockReader", "readerSize") {
+				return
+			}
+			n++
+			for _, o := range origins(st.Val, originOpts{binops: true}) {
+				switch {
+				case o.Kind == "const":
+					if k, ok := constInt(o.Val); !ok || k != -1 {
+						bad = fmt.Sprintf("br.readerSize is set to the constant %d at %s: the truncation check `finalOffset > readerSize` can then never fire and a cut payload is skipped over silently", k, c.Pos(in.Pos()))
+					}
+				case o.Kind == "field" && o.Field != nil && (o.Field.Name() == "DataOffset" || o.Field.Name() == "DataSize"):
+				case o.Kind == "call" && o.Fn != nil && o.Fn.Name() == "Seek":
+					cl, _ := callOf(o.Val)
+					_, wh := seekArgs(cl)
+					if k, ok := constInt(wh); !ok || k != 2 {
+						bad = "br.readerSize comes from a Seek that is not Seek(0, io.SeekEnd)"
+					}
+				default:
+					bad = "br.readerSize is set from " + o.Kind + " at " + c.Pos(in.Pos())
+				}
+			}
+		})
+	}
+	if n == 0 {
+		bad = "no assignment of br.readerSize found"
+	}
+	r.Check(bad == "", key2, pos, "readerSize ∈ {-1, DataOffset+DataSize, Seek(0, SeekEnd)}", bad)
 }
